@@ -107,29 +107,30 @@ def run(ctx):
     R3 = ctx.rule("C04-R3", "Retry.new() carries every constructor parameter over, each from the field of the same name", "E8")
     newf = m.method(RETRY, "new")
     ctor = set(init.params())
-    dcall = [c for c in astq.calls(newf.node) if astq.call_text(c) == "dict"]
-    dlit = [n for n in astq.walk_fn(newf.node) if isinstance(n, ast.Dict)]
-    pairs = {}
-    if dcall:
-        for k in dcall[0].keywords:
-            if k.arg:
-                pairs[k.arg] = k.value
-    elif dlit:
-        for k, v in zip(dlit[0].keys, dlit[0].values):
-            if isinstance(k, ast.Constant):
-                pairs[k.value] = v
-    if not pairs:
-        raise AnalysisError("Retry.new: parameter dict not recognised")
-    ctx.sites(R3, len(pairs), 10, "entries in new()'s parameter dict")
-    for p in sorted(ctor):
-        ok = p in pairs and astq.text(pairs[p]) == f"self.{p}"
-        ctx.ob(R3, newf.qual, f"parameter {p} carried over from self.{p}", ok,
-               "" if ok else (f"`{p}` is not copied by new(): after the first increment it silently falls back to its default" if p not in pairs else f"copied from {astq.text(pairs[p])}"), node=newf.node)
-    for p in sorted(set(pairs) - ctor):
-        ctx.ob(R3, newf.qual, f"entry {p} is a constructor parameter", False, "new() passes a keyword the constructor does not take", node=newf.node)
-    rets = [r for r in astq.walk_fn(newf.node) if isinstance(r, ast.Return)]
-    ok = all(isinstance(r.value, ast.Call) and astq.call_text(r.value) in ("type(self)", "self.__class__", "Retry") for r in rets) and rets
-    ctx.ob(R3, newf.qual, "new() builds a fresh object of the same class", bool(ok))
+    # decided on the effect rows of new(): the object returned is type(self)(...) and every constructor parameter is passed, each
+    # defaulting to the field of the same name (overridable only by the keyword arguments given to new())
+    nrows = [r for r in effect_rows(ctx, newf, GenRule(ctx, newf.module, inline=helper_closure(m, [newf]) - {newf.qual}), RETRY) if r.returns]
+    ctx.sites(R3, len(nrows), 1, "returning rows of Retry.new")
+    KWN = "p:**" + (newf.node.args.kwarg.arg if newf.node.args.kwarg else "kw")
+    seen3 = set()
+    for r in nrows:
+        if r.ret in seen3:
+            continue
+        seen3.add(r.ret)
+        op_, args_ = destruct(r.ret)
+        fresh = op_ in ("new:type(self)", "new:self.__class__", "new:Retry", "new:cls")
+        ctx.ob(R3, newf.qual, "new() builds a fresh object of the same class", bool(fresh), "" if fresh else f"returns {r.ret[:80]}", witness=r.witness(), node=newf.node)
+        if not fresh:
+            continue
+        from ..rows import bind as _bind3
+        pairs = _bind3(init.params(), list(args_))
+        for p in sorted(ctor):
+            v_ = pairs.get(p)
+            ok = v_ in (f"self.{p}", T("over", f"self.{p}", KWN))
+            ctx.ob(R3, newf.qual, f"parameter {p} carried over from self.{p}", ok,
+                   "" if ok else (f"`{p}` is not copied by new(): after the first increment it silently falls back to its default" if v_ is None else f"copied from {v_}"), witness=r.witness(), node=newf.node)
+        for p in sorted(k_ for k_ in pairs if k_ not in ctor and not k_.startswith(("#", "**"))):
+            ctx.ob(R3, newf.qual, f"entry {p} is a constructor parameter", False, "new() passes a keyword the constructor does not take", node=newf.node)
 
     # ------------------------------------------------------------------ R4 back-off clamp
     R4 = ctx.rule("C04-R4", "every sleep lies in [0, backoff_max] or is a non-negative Retry-After: get_backoff_time returns 0 or max(0, min(backoff_max, e)); parse_retry_after clamps at 0; only these values reach time.sleep", "E6 min/max algebra")
@@ -300,7 +301,9 @@ def run(ctx):
             return super().call_hook(it, st, node, recv, pos, kw)
 
     fields = ("total", "connect", "read", "redirect", "status", "other")
-    rule = IncRule(ctx, inc.module, pure_self=("_is_connection_error", "_is_read_error", "_is_method_retryable", "new"))
+    PRED9 = ("_is_connection_error", "_is_read_error", "_is_method_retryable")
+    inl9 = frozenset(q_ for q_ in helper_closure(m, [inc], stop=PRED9) - {inc.qual} if q_.rsplit(".", 1)[-1] not in PRED9)
+    rule = IncRule(ctx, inc.module, inline=inl9, pure_self=PRED9 + ("new",))
     rows = effect_rows(ctx, inc, rule, RETRY, budget=900000)
     PE, PR, PM_ = "p:error", "p:response", "p:method"
     CONN, READ, RETRYABLE, LOC = T("self._is_connection_error", PE), T("self._is_read_error", PE), T("self._is_method_retryable", PM_), T(f"{PR}.get_redirect_location")
